@@ -651,6 +651,33 @@ func runC19(cfg *runCfg) error {
 		var d *document.Document
 		var err error
 		opts := mdOptions(cr)
+		// an option for a construct the document does not use is switched off now and then: nothing else may change
+		// (strike-through, autolinks and the rest of the GitHub flavour stay on)
+		hasKind := func(k string) bool {
+			var walk func(bs []mdBlock) bool
+			walk = func(bs []mdBlock) bool {
+				for _, b := range bs {
+					if b.kind == k {
+						return true
+					}
+					for _, sub := range b.sub {
+						if walk(sub) {
+							return true
+						}
+					}
+				}
+				return false
+			}
+			return walk(blocks)
+		}
+		if !hasKind("table") && cr.chance(40) {
+			opts.EnableTables = false
+			feats["tables switched off (the document has none)"]++
+		}
+		if !hasKind("task") && cr.chance(40) {
+			opts.EnableTaskList = false
+			feats["task lists switched off (the document has none)"]++
+		}
 		if cr.chance(10) && !strings.Contains(src, "![](") {
 			// the file route: ConvertFile writes a document, which is opened again
 			feats["converted through ConvertFile"]++
